@@ -333,3 +333,162 @@ func (j *J) extended(rng *hx.Rng) *J {
 
 	return c
 }
+
+// ---- documents the encoder would not write, built from one it wrote ----
+
+func isDigits(s string) bool {
+	if s == "" {
+		return false
+	}
+	for _, c := range s {
+		if c < '0' || c > '9' {
+			return false
+		}
+	}
+
+	return true
+}
+
+func isLowerHex(s string) bool {
+	for _, c := range s {
+		if !(c >= '0' && c <= '9' || c >= 'a' && c <= 'f') {
+			return false
+		}
+	}
+
+	return true
+}
+
+func respellable(s string) bool {
+	return isDigits(s) || (len(s) > 1 && s[0] == '-' && isDigits(s[1:])) || (len(s) >= 2 && s[:2] == "0x" && isLowerHex(s[2:]))
+}
+
+// respell returns another spelling of a decimal or 0x-hex text (some accepted by strconv / hexutil with the same
+// meaning - leading zeros, a plus sign, upper-case digits or prefix -, some with another meaning - an extra zero
+// byte -, some rejected - a trailing blank, an odd number of digits), or "" if the text is neither.
+func respell(s string, rng *hx.Rng) string {
+	switch {
+	case isDigits(s) || (len(s) > 1 && s[0] == '-' && isDigits(s[1:])):
+		sign, digits := "", s
+		if s[0] == '-' {
+			sign, digits = "-", s[1:]
+		}
+		switch rng.Intn(5) {
+		case 0:
+			return sign + "0" + digits
+		case 1:
+			return sign + "00" + digits
+		case 2:
+			if sign == "" {
+				return "+" + digits
+			}
+
+			return "-0" + digits
+		case 3:
+			return s + " "
+		default:
+			return sign + digits + "0"
+		}
+	case len(s) >= 2 && s[:2] == "0x" && isLowerHex(s[2:]):
+		d := s[2:]
+		switch rng.Intn(6) {
+		case 0:
+			return "0x" + strings.ToUpper(d)
+		case 1:
+			return "0X" + d
+		case 2:
+			return "0x00" + d
+		case 3:
+			return "0x0" + d
+		case 4:
+			if len(d) > 0 {
+				return "0x" + d[1:]
+			}
+
+			return "0x"
+		default:
+			return "0x" + d + "00"
+		}
+	}
+
+	return ""
+}
+
+// respelled returns a copy in which one decimal / hex string is spelled differently: either a string value, or -
+// as an additional member carrying a copy of the value - the name of a member (for a Go map target that is a
+// second entry whose key may decode to an existing one: the duplicate-key error path).  nil if there is no such text.
+func (j *J) respelled(rng *hx.Rng) *J {
+	c := j.clone()
+	type site struct {
+		val *J
+		obj *J
+		idx int
+	}
+	var sites []site
+	var walk func(n *J)
+	walk = func(n *J) {
+		if n.K == "s" && respellable(n.S) {
+			sites = append(sites, site{val: n})
+		}
+		for _, e := range n.A {
+			walk(e)
+		}
+		for i, m := range n.O {
+			if respellable(m.Key) {
+				sites = append(sites, site{obj: n, idx: i})
+			}
+			walk(m.Val)
+		}
+	}
+	walk(c)
+	if len(sites) == 0 {
+		return nil
+	}
+	st := sites[rng.Intn(len(sites))]
+	if st.val != nil {
+		st.val.S = respell(st.val.S, rng)
+	} else {
+		m := st.obj.O[st.idx]
+		name := respell(m.Key, rng)
+		for _, other := range st.obj.O {
+			if other.Key == name { // a map[string]any has no two members of one name
+				return nil
+			}
+		}
+		st.obj.O = append(st.obj.O, JM{name, m.Val.clone()})
+	}
+
+	return c
+}
+
+// extreme numbers, all exactly representable as float64 (the decoder sees float64(n)).
+var extremes = []string{"255", "256", "-1", "-128", "-129", "127", "128", "32767", "32768", "-32769", "65535", "65536",
+	"2147483647", "2147483648", "-2147483648", "-2147483649", "4294967295", "4294967296", "4294967297", "1000000000000",
+	"9007199254740992", "9223372036854775808", "-9223372036854775808", "18446744073709551616", "10000000000000000000",
+	"-18446744073709551616"}
+
+// extremeNumber returns a copy in which one JSON number is replaced by a number at or beyond the edge of an
+// integer kind (object codes and 8/16/32-bit integers are the numbers of the form).  nil if there is no number.
+func (j *J) extremeNumber(rng *hx.Rng) *J {
+	c := j.clone()
+	var nums []*J
+	var walk func(n *J)
+	walk = func(n *J) {
+		if n.K == "n" {
+			nums = append(nums, n)
+		}
+		for _, e := range n.A {
+			walk(e)
+		}
+		for _, m := range n.O {
+			walk(m.Val)
+		}
+	}
+	walk(c)
+	if len(nums) == 0 {
+		return nil
+	}
+	nums[rng.Intn(len(nums))].Num = extremes[rng.Intn(len(extremes))]
+
+	return c
+}
